@@ -56,12 +56,20 @@ D = {  # id: (caught_by, first_run, strengthening)
  "C13_4": (["C13"], "missed", "same `seq` kind: inputs decided before the string scan mixed with inputs needing it, default parameters, match details compared"),
  "C01_3": (["C01"], "caught", None),
  "C01_4": (["C01"], "caught", None),
- "C11_3": ([], "missed", "pending with its owner: fast mode x full matches x rule sets decidable without the scan, match lists compared with the per-region union"),
+ "C11_3": (["C11"], "missed", "vlib/props/c11.py: one case in six has every rule decidable without its strings (fast mode, full matches); the match list must still be the per-region union; corpus/C11/fast_mode_full_matches_noscan.json"),
  "C11_4": (["C11"], "caught", None),
- "C12_3": (["C17 (broken tie)"], "missed by C12", "pending with its owner: module imports in A and B over several source texts"),
- "C12_4": (["C05", "C15 (broken tie)"], "missed by C12", "pending with its owner: A with a true global rule followed by a false one while B keeps another namespace enabled"),
+ "C12_3": (["C12", "C17 (broken tie)"], "missed by C12", "vlib/props/c12.py: module family — every rule its own source text with `import`, scanned on real PE / ELF assets; corpus/C12/module_reimport_other_namespace.json"),
+ "C12_4": (["C05", "C12", "C15 (broken tie)"], "missed by C12", "vlib/props/c12.py: A may start with a true global rule then a false one while B lives in another namespace, with and without include_not_matched; corpus witnesses"),
  "C14_3": (["C14"], "caught", None),
- "C14_4": (["C11", "C14 (broken tie)"], "broken tie only for C14 (C11 concrete)", "pending with its owner"),
+ "C14_4": (["C11", "C14"], "broken tie only for C14 (C11 concrete)", "vlib/props/c14.py: layouts with the same page mapped several times + text_complete clause; corpus/C14/same_page_same_offset.json"),
+ "C16_3": (["C16", "C11"], "caught", None),
+ "C16_4": (["C16"], "caught", None),
+ "C17_3": ([], "missed", "pending with its owner: scans with module user data (set_module_data) and value-vs-declared-type conformance"),
+ "C17_4": (["C17"], "caught", None),
+ "C18_3": (["C18"], "caught", None),
+ "C18_4": (["C18"], "caught", None),
+ "C20_3": ([], "missed", "pending with its owner: the same relative include string in files of different directories"),
+ "C20_4": (["C20"], "caught", None),
  "C07_1": (["C07"], "caught at one seed in three", "vlib/props/c07.py: generator atom `for K of (set) : (<N of (set2)> and/or <anonymous reference>)`; corpus replay"),
  "C07_2": (["C07"], "caught at one seed in three", "vlib/props/c07.py: string family of class-only single-length fullword regexes (raw path) with members placed end to end after an alphanumeric byte; corpus replay"),
 }
@@ -76,7 +84,7 @@ for sid, (by, first, how) in D.items():
     ver = open(d + "/verify.log").read().strip().splitlines()[-1] if os.path.exists(d + "/verify.log") else ""
     pid, n = sid.split("_")
     meta = {"id": sid, "property": pid, "summary": ag.get("summary"), "needs": ag.get("needs"),
-            "files_changed": ag.get("files_changed"), "demo_cmd": (ag.get("demo_cmd") or "").split("   (optional")[0],
+            "files_changed": ag.get("files_changed"), "demo_cmd": __import__("re").split(r"\s{2,}\(", ag.get("demo_cmd") or "")[0],
             "confirmed_by_coordinator": {"worktree": "/tmp/wt_%s (scratch git worktree of /repo, removed afterwards)" % pid,
                                          "ran": "tools/verify_seed.sh %s %s: demonstration on HEAD, demonstration with the patch, full nextest suite with the patch" % (pid, n),
                                          "result": ver},
